@@ -126,7 +126,7 @@ def declare_vars(case, objs, containers=None):
             v = let(cls, domain=cont)
         else:
             with symbolic_mode():
-                v = cls(From(cont))
+                v = cls(From(cont), **{f: dec(c) for f, c in vd.get("kw", [])})
         V.append(v)
         conts.append(cont)
     return V, conts
